@@ -98,7 +98,7 @@ def _gen_case(rng, tier):
         "w2": gen_wl(rng),
         "seeds": [1, 2, rng.randrange(3, 4_000_000)],
         "buf": rng.choice([1, 2, 7, 61, 1000, 4096]),
-        "dims": sorted(rng.sample(["hash", "hash", "cwd", "buffer", "warm", "stale", "history", "format", "asmformat", "stdoutmode"], rng.choice([3, 4, 5]))),
+        "dims": sorted(rng.sample(["hash", "hash", "cwd", "buffer", "warm", "stale", "history", "format", "asmformat", "stdoutmode", "symlink"], rng.choice([3, 4, 5]))),
         "hist_seed": rng.getrandbits(32),
     }
 
@@ -311,6 +311,51 @@ class Ctx:
             if not self.compare("hash_seed", ref, got, f"PYTHONHASHSEED={seed} in a fresh interpreter vs PYTHONHASHSEED={os.environ.get('PYTHONHASHSEED')} in-process"):
                 return
         self.classify("hash_seed", key, ref)
+
+    def dim_symlink(self, ref):
+        """The --assembly path is a symbolic link: first to the FASTA itself, then
+        re-pointed at another (older) FASTA with the same sequence names.  Each
+        run must give what a run on the link's current target gives."""
+        wl = self.case["w1"]
+        if wl["kind"] != "fasta":
+            return
+        d, asm, prt = self.stage("w1")
+        w = self.world
+        alt = os.path.join(d, "alt")
+        link = os.path.join(d, "link.fa")
+        with w.suspend():
+            os.makedirs(alt, exist_ok=True)
+            lines = Path(asm).read_text().splitlines(keepends=True)
+            out, masked = [], False
+            for ln in lines:
+                body = ln.rstrip("\r\n")
+                if not masked and not ln.startswith(">") and len(body) >= 4 and body[1:-1].strip("ACGTacgt") == "":
+                    # same length, same names: a stretch in the middle of a line hard-masked
+                    k = max(1, len(body) // 3)
+                    ln = body[:k] + "N" * (len(body) - 2 * k) + body[len(body) - k:] + ln[len(body):]
+                    masked = True
+                out.append(ln)
+            if not masked:
+                return
+            other = os.path.join(alt, "g_b.fa")
+            Path(other).write_text("".join(out))
+            w.stamp_path(other, w.clock - 400)  # an older file
+            if os.path.lexists(link):
+                os.unlink(link)
+            os.symlink("g.fa", link)
+        ref_b = self.run_p2a("w1", asm=other)
+        if ref_b.code != 0:
+            return
+        got = self.run_p2a("w1", asm=link)
+        if not self.compare("symlink", ref, got, "--assembly given as a symbolic link to the same FASTA"):
+            return
+        with w.suspend():
+            os.unlink(link)
+            os.symlink(os.path.join("alt", "g_b.fa"), link)
+        w.advance(2)
+        got = self.run_p2a("w1", asm=link)
+        self.compare("symlink", ref_b, got, "the link re-pointed at another, older FASTA with the same sequence names vs a run on that FASTA directly")
+        self.classify("symlink", "w1", ref)
 
     def dim_stdoutmode(self, ref):
         """Without --output the assemblies are printed to STDOUT (STR format):
